@@ -459,9 +459,15 @@ class TypeDependencyAnalysis(DefaultVisitor):
             return
         namespace, decl = decl
         node_id, _ = self._get_node_id()
-        self._inferred_nodes[node_id].append(
-            DeclarationNode("/".join(namespace), decl)
-        )
+        decl_node = DeclarationNode("/".join(namespace), decl)
+        if not decl_node.is_omittable() and decl_node not in self.type_graph:
+            # The type of a field or a parameter is always declared. Such a
+            # declaration may lie outside the code being analysed (e.g., a
+            # field used in a method), so record its type here; otherwise
+            # nothing constrains the declarations initialised by it.
+            construct_edge(self.type_graph, decl_node,
+                           TypeNode(decl.get_type(), None), Edge.DECLARED)
+        self._inferred_nodes[node_id].append(decl_node)
 
     def _get_receiver_type(self, receiver_t):
         # If the receiver type is parameterized, compute type variable
